@@ -249,7 +249,14 @@ pub enum Step {
     Api { kind: u8, text: String, params: String },
     /// a data model text through update_data_model of the running instance
     ModelUpdate(String),
+    /// a text derived from a grammar at run time (0 model, 1 query, 2 mutation, 3 deletion) and
+    /// given to the public API of the instance; a model text is appended to the current model
+    /// when `keep` is set (otherwise it replaces it, which the instance must refuse)
+    Derived { target: u8, dna: Vec<u8>, muts: Vec<crate::pest_gen::Mutation>, keep: bool },
 }
+
+/// how `Step::Derived` gets its text (the grammars live in main.rs)
+pub type Deriver = dyn Fn(u8, &[u8], &[crate::pest_gen::Mutation]) -> String;
 
 pub fn step_strategy() -> impl Strategy<Value = Step> {
     let flips = || prop::collection::vec((any::<u16>(), 1u8..=255), 0..3);
@@ -260,6 +267,8 @@ pub fn step_strategy() -> impl Strategy<Value = Step> {
         2 => (any::<bool>(), bytes_strategy(), flips(), prop::option::weighted(0.1, any::<u16>()), prop::option::weighted(0.2, prop::collection::vec(any::<u8>(), 0..80)))
             .prop_map(|(app_ok, sign, flips, truncate, raw)| Step::Invite { app_ok, sign, flips, truncate, raw }),
         2 => (bytes_strategy(), bytes_strategy()).prop_map(|(sig, key)| Step::VerifyHash { sig, key }),
+        3 => (0u8..4, prop::collection::vec(any::<u8>(), 0..120), prop::collection::vec(crate::mutation_strategy(), 0..3), any::<bool>())
+            .prop_map(|(target, dna, muts, keep)| Step::Derived { target, dna, muts, keep }),
     ]
 }
 
@@ -635,7 +644,7 @@ const JSONS: &[&str] = &[
     "BIG",
 ];
 
-pub fn run_steps(w: &mut World, steps: &[Step], o: &mut Outcome) {
+pub fn run_steps(w: &mut World, steps: &[Step], o: &mut Outcome, derive: &Deriver) {
     let mut prev_stage = String::from("setup");
     for (si, step) in steps.iter().enumerate() {
         // a panic recorded after the probe of the previous step belongs to that step
@@ -726,6 +735,17 @@ pub fn run_steps(w: &mut World, steps: &[Step], o: &mut Outcome) {
                     Guarded::Panicked => o.label(format!("{}:panic", stage)),
                     Guarded::TimedOut => timed_out = true,
                 }
+            }
+            Step::Derived { target, dna, muts, keep } => {
+                let text = derive(*target, dna, muts);
+                let step = if *target % 4 == 0 {
+                    Step::ModelUpdate(if *keep { format!("{}\n{}", w.model, text) } else { text })
+                } else {
+                    Step::Api { kind: (*target % 4) - 1, text, params: String::new() }
+                };
+                // interpreted as the concrete step (same verdicts, same probe)
+                run_steps(w, std::slice::from_ref(&step), o, derive);
+                continue;
             }
             Step::ModelUpdate(text) => {
                 stage = "api.update_data_model".into();
